@@ -27,6 +27,9 @@ import (
 // may legitimately take either branch, so both are accepted there (label
 // "guard-ambiguous"); symmetry is asserted everywhere, the branch has to be
 // the same in both directions.
+//
+// For pairs of dimension >= 1 the same estimate is also asked through a
+// coordinate.Client placed at one point (SetCoordinate, Client.DistanceTo).
 
 type c21Coord struct {
 	Vec    []float64 `json:"vec"`
